@@ -146,7 +146,15 @@ func run() int {
 		}
 	}
 	start := time.Now()
+	// VERIF_WORKTAG: runs against a patched scratch tree (tools/seedcheck.sh) use
+	// their own work and evidence directories, so that they can run beside a
+	// check of the real tree
 	work := filepath.Join(root, "work", id)
+	if t := os.Getenv("VERIF_WORKTAG"); t != "" {
+		work += "." + t
+		evidenceDir = "evidence." + t
+	}
+	workDir = work
 	_ = os.RemoveAll(work)
 	if err := os.MkdirAll(work, 0o755); err != nil {
 		fmt.Fprintln(os.Stderr, "vcheck:", err)
@@ -545,6 +553,11 @@ func stripArgs(s string) string {
 	return strings.Join(lines, "\n")
 }
 
+var (
+	evidenceDir = "evidence"
+	workDir     string
+)
+
 type evidence struct {
 	PropertyID  string         `json:"property_id"`
 	Tier        string         `json:"tier"`
@@ -816,8 +829,8 @@ func merge(id string, sp spec, tier string, seed uint64, results []*shardResult,
 		ev.Assumptions = []string{}
 	}
 	b, _ := json.MarshalIndent(ev, "", " ")
-	_ = os.MkdirAll(filepath.Join(root, "evidence"), 0o755)
-	_ = os.WriteFile(filepath.Join(root, "evidence", id+".json"), b, 0o644)
+	_ = os.MkdirAll(filepath.Join(root, evidenceDir), 0o755)
+	_ = os.WriteFile(filepath.Join(root, evidenceDir, id+".json"), b, 0o644)
 
 	fmt.Printf("property=%s tier=%s seed=%d shards=%d evaluations=%d distinct_nontrivial=%d wall=%.1fs\n", id, tier, seed, len(results), evals, len(nt), wall)
 	for _, k := range known {
@@ -847,7 +860,7 @@ func merge(id string, sp spec, tier string, seed uint64, results []*shardResult,
 // confirmDeath replays a journalled case alone in a fresh process with a large
 // memory limit; it reports whether the process died again with a Go fault.
 func confirmDeath(id, shardDir string, d death, tier string, seed uint64, shard, nsh int) (death, bool) {
-	bin := filepath.Join(root, "work", id, strings.ToLower(id)+".test")
+	bin := filepath.Join(workDir, strings.ToLower(id)+".test")
 	rp := filepath.Join(shardDir, fmt.Sprintf("confirm-%016x.json", harness.HashBytes([]byte(d.Journal))))
 	b, _ := json.Marshal(map[string]any{"property": id, "test": "process-death", "case": map[string]any{"journal": d.Journal}})
 	_ = os.WriteFile(rp, b, 0o644)
